@@ -258,23 +258,44 @@ func (x *Exec) concreteInt(v Value, what string) int {
 	return x.ConcretizeInt(iv.T, 0, x.Cfg.Bound("concretize", 8), what)
 }
 
+// concreteIndex case-splits a symbolic index over the whole range of a container of known
+// length (up to 64 elements; beyond that the stated concretize bound applies) and raises the
+// Go run-time panic when the index can lie outside it.
+func (x *Exec) concreteIndex(idx Value, n int, what string) int {
+	iv, ok := idx.(IntV)
+	if !ok {
+		x.Unsupported("%s: not an integer (%T)", what, idx)
+	}
+	if c, ok := iv.T.ConstInt64(); ok {
+		return int(c)
+	}
+	if n <= 0 || n > 64 {
+		return x.ConcretizeInt(iv.T, 0, x.Cfg.Bound("concretize", 8), what)
+	}
+	B := x.B
+	if !x.Branch(B.And(B.Le(B.Int(0), iv.T), B.Lt(iv.T, B.Int(int64(n))))) {
+		panic(goPanic{Msg: fmt.Sprintf("index out of range with length %d", n)})
+	}
+	return x.ConcretizeInt(iv.T, 0, n-1, what)
+}
+
 func (x *Exec) indexAddr(base Value, idx Value) Value {
 	switch b := base.(type) {
 	case SliceV:
 		if b.Atom != nil {
 			x.Unsupported("index into opaque byte string")
 		}
-		k := x.concreteInt(idx, "slice index")
+		k := x.concreteIndex(idx, b.Len, "slice index")
 		if k < 0 || k >= b.Len {
 			panic(goPanic{Msg: fmt.Sprintf("index out of range [%d] with length %d", k, b.Len)})
 		}
 		return PtrV{Obj: b.Arr, Path: []int{b.Off + k}}
 	case PtrV: // pointer to array
-		k := x.concreteInt(idx, "array index")
 		arr, ok := x.load(b).(ArrayV)
 		if !ok {
 			x.Unsupported("index address through pointer to %T", x.load(b))
 		}
+		k := x.concreteIndex(idx, len(arr.E), "array index")
 		if k < 0 || k >= len(arr.E) {
 			panic(goPanic{Msg: "index out of range"})
 		}
@@ -287,7 +308,7 @@ func (x *Exec) indexAddr(base Value, idx Value) Value {
 func (x *Exec) indexValue(base Value, idx Value) Value {
 	switch b := base.(type) {
 	case ArrayV:
-		k := x.concreteInt(idx, "array index")
+		k := x.concreteIndex(idx, len(b.E), "array index")
 		if k < 0 || k >= len(b.E) {
 			panic(goPanic{Msg: "index out of range"})
 		}
